@@ -22,7 +22,7 @@ CHECKS = {
  "C03": dict(technique="TLC-validated relational traces: column-membership equality over permutations of the input records",
              text="For each sequence set the harness runs several record orders (all n! for tiny inputs with ties, structured and random permutations for generated inputs on both sides of the 100-sequence switch); RelateTrace requires the same set of columns as sets of (name, residue index).",
              note="permutations sampled except for tiny inputs; names distinct by construction", ref="DESIGN 5.C03"),
- "C06": dict(technique="TLC trace validation of write/read round trips and conversions against the given alignment (RoundTripTrace; rows rebuilt by Weave!Render)",
+ "C06": dict(technique="TLC model checking of writer o reader = identity on all small alignments (MC_RoundTrip) + TLC trace validation of write/read round trips and conversions against the given alignment (RoundTripTrace)",
              text="For synthetic alignments (the generator's rows are the reference) and alignments produced by runs, every file kalign writes (3 formats) is read back and every read-back copy is converted into 3 formats and read back again; TLC requires row count, order, names, residues and gap positions to equal the reference (12 comparisons per alignment), including widths at multiples of 60, names up to 200 characters, and gap runs at the reader's 512-residue growth boundaries.",
              note="sampled alignments; conversion = read + finalise + write (what kalign_msa_compare does internally); one known finding (gap-free alignments cannot be converted)", ref="DESIGN 5.C06"),
  "C08": dict(technique="TLC-validated relational traces (Relate!NoDash) over identical-sequence inputs",
@@ -34,7 +34,7 @@ CHECKS = {
  "C12": dict(technique="TLC-validated relational traces (Relate!DupRows) with the containment premise evaluated by the specification",
              text="Inputs of 2..99 sequences with planted duplicates; the spec evaluates the premise (no other sequence contains or is contained in a duplicated one on the guide-tree alphabet of Alphabet.tla) on the object as read and requires equal rows for equal sequences; cases failing the premise are skipped and counted.",
              note="sampled inputs; premise uses substring containment on class codes", ref="DESIGN 5.C12"),
- "C15": dict(technique="TLC evaluation of Writer!WellFormed on tokenised layouts of every written file (WriterTrace)",
+ "C15": dict(technique="TLC evaluation of Writer!WellFormed on tokenised layouts of every written file (WriterTrace), line-by-line comparison with the constructive writer model, design-level round trip (MC_RoundTrip)",
              text="Writer.tla states the layout of FASTA, Clustal and MSF files (wrapping at 60, block count and content, every sequence in every block, MSF declared length, per-row and total GCG checksums, molecule type); every file written from synthetic and run-produced alignments (widths incl. multiples of 60, names to 200 characters) is tokenised into fields and checked by TLC against the rows, names and biotype of the object it was written from.",
              note="tokenizer trusted to split fields only; date and file name in the MSF header are not checked", ref="DESIGN 5.C15"),
  "C17": dict(technique="TLC lemmas over Compare.tla + TLC-computed exact fraction against kalign_msa_compare's result (CompareTrace)",
@@ -43,13 +43,13 @@ CHECKS = {
  "C13": dict(technique="TLC model checking of the histogram rule against the requirement over all small compositions + TLC validation of kalign's decision on concretised compositions (BiotypeTrace)",
              text="Biotype.tla states the requirement on residue letters and a model of the code's likelihood rule; TLC shows over all class-count vectors up to 9 residues where they agree (the U-rich region is the documented known finding; a twin config exhibits it). BiotypeTrace checks kalign's decision (after kalign_read_input for FASTA/aligned FASTA/Clustal/MSF and inside kalign()) for every premise-satisfying vector up to 9-12 residues, large compositions with reordered/renamed copies, gap-heavy alignments and inputs of more than 512 records.",
              note="compositions enumerated by letter class, letters within a class sampled; one known finding (U-rich proteins)", ref="DESIGN 5.C13"),
- "C04": dict(technique="TLC-validated relational traces (Relate!SameRows) over re-presentations generated from one record set",
+ "C04": dict(technique="TLC-validated relational traces (Relate!SameRows) over re-presentations generated from one record set + line-level reader model (Reader/ReaderTrace) on every presentation file",
              text="Each set of named sequences is presented as bare FASTA (reference) and as FASTA at other widths, unwrapped with blank lines, aligned FASTA with random gap insertions up to 20 gap characters per residue and three gap symbols, Clustal and MSF variants, splits over 2..n files in mixed formats, alignments wider than 8192 columns unwrapped, and through the command line (-i, positional, stdin, stdin + file); TLC requires identical names and rows in every member of the group.",
              note="presentations are generated inputs (sampled); the reader itself is bound by the relation, not by a line-level reader model", ref="DESIGN 5.C04"),
- "C05": dict(technique="TLC-enumerated input files and option vectors replayed under sanitizers; TLC validation of the outcome protocol (ProtoTrace, CliTrace) and of alphabet totality (AlphabetTrace)",
+ "C05": dict(technique="TLC-enumerated input files and option vectors replayed under sanitizers and valgrind; TLC validation of the outcome protocol (ProtoTrace, CliTrace), of the line-level reader model (Reader/ReaderTrace) and of alphabet totality (AlphabetTrace)",
              text="The specification decides (a) that every letter has a class in the real code tables, (b) the outcome protocol of read/run/write on every file of up to 2 lines over 27 line kinds and thousands of longer ones enumerated by TLC from FileGen.tla (success implies a well-formed object and a valid alignment of what was read; otherwise a failure status), (c) the protocol of the command line over option vectors enumerated from Cli.tla (exit 0 implies a valid alignment, failure implies non-zero exit and a message, must-fail and must-succeed classes). Memory clauses are observed on those executions by ASan, UBSan and LeakSanitizer.",
              note="memory safety is observed by sanitizers on generated executions, not decided by the model (DESIGN section 8); leaks are judged on the success path only; timeouts are confirmed at 4x", ref="DESIGN 5.C05"),
- "C07": dict(technique="TLC model checking of the fold DPs against brute force (MC_Scoring) + TLC-computed uniqueness certificates on planted cases (ScoringTrace)",
+ "C07": dict(technique="TLC model checking of the fold DPs against brute force (MC_Scoring) and of the Hirschberg controller (MC_Hirschberg) + TLC-computed uniqueness certificates on planted cases (ScoringTrace) + step-by-step validation of the recursion (HirschTrace)",
              text="Scoring.tla states kalign's affine scoring model with the end-gap charge as an interval; TLC shows the forward/backward fold DPs and the through-scores equal brute force over all alignments of tiny sequences. For every planted case TLC computes, with the parameters the kernels actually read, whether the planted alignment beats every other alignment under every admissible end-gap charge by more than the tie-break and float slack; only then kalign must return exactly that alignment (pairs and groups of 1..3 identical copies, all types, user penalties, both sides of the 500-column switch).",
              note="cases without a certificate are skipped and counted; the interval model makes certification conservative for terminal overhangs", ref="DESIGN 5.C07"),
  "C16": dict(technique="TLC enumeration of API histories with dependency chains (Api.tla) + TLC comparison of each call's result with its chain replayed in a fresh process (ApiTrace) + LeakSanitizer",
